@@ -261,3 +261,22 @@ Proof.
   destruct (find_canon a c ps) as [[n ee]|] eqn:F; [|apply Hb; exact Hc].
   destruct (find_canon_some _ _ _ _ _ F) as [_ M]. apply (arch_wf_memoize a W n c M).
 Qed.
+
+(* ---- CfiStackWalker::set_caller_register / set_cfa / set_ra on any architecture table: the name is resolved through
+        memoize_register (aliases), the value must fit size_of::<Register>() bytes, exactly one machine register
+        changes ---- *)
+Lemma real_set_spec : forall a s n v,
+  match real_set a s n v with
+  | Some s' => exists c, memoize a n = Some c /\ v < 2 ^ (8 * a_width a) /\
+                 r_ctx s' c = v /\ r_valid s' c = true /\
+                 forall c', c' <> c -> r_ctx s' c' = r_ctx s c' /\ r_valid s' c' = r_valid s c'
+  | None => memoize a n = None \/ 2 ^ (8 * a_width a) <= v
+  end.
+Proof.
+  intros a s n v. unfold real_set. destruct (memoize a n) as [c|]; [|left; reflexivity].
+  unfold fits. destruct (v <? 2 ^ (8 * a_width a)) eqn:F.
+  - apply Z.ltb_lt in F. exists c. split; [reflexivity|]. split; [exact F|]. cbn [r_ctx r_valid]. unfold updz, updb.
+    rewrite beq_refl. split; [reflexivity|]. split; [reflexivity|].
+    intros c' Hne. apply beq_neq in Hne. rewrite Hne. split; reflexivity.
+  - right. apply Z.ltb_ge. exact F.
+Qed.
